@@ -407,7 +407,9 @@ def run(chk):
             chk.proof_broken = {"kind": "extraction", "error": repr(e)[:600]}
     chk.assumptions = ["the input is what the player delivers: events in non-decreasing time order (C03)",
                        "state types are those of corpus/C13/state_types.json (pinned from the tree: types whose values are names)",
-                       "breakdown files (-b) are judged by the independent checker only; the Coq model has no breakdown output",
+                       "breakdown files (-b): judged by the independent checker, and compared byte for byte with the files of the Coq model "
+                       "PvBreakdownDefs.bd_emulate given the number of physical CPUs, the task-type values and the per-CPU breakdown values read "
+                       "from cpu.row / cpu.pcf / cpu.prv of the same run (the inputs are read per instant: the records of an instant shared by two events are left out on both sides)",
                        "in the .prv files the order of the records written within one propagation step is not compared (records are compared as a multiset)"]
     state = json.load(open(os.path.join(common.VERIF, "corpus", "C13", "state_types.json")))
     # value tables per PRV type and side, from the dump of the current source
@@ -504,6 +506,8 @@ def run(chk):
     except ImportError:
         c20 = None
     nb = 0
+    bd_cmp = []
+    bd_bad = []
     if c20 is not None:
         wd = trace.workdir("ovni-c13-")
         try:
@@ -537,7 +541,11 @@ def run(chk):
                     for name in os.listdir(d):
                         p = os.path.join(d, name)
                         if os.path.isfile(p) and name.split(".")[-1] in ("prv", "pcf", "row"):
-                            files[name] = open(p, errors="replace").read()
+                            files[name] = open(p, errors="replace", encoding="latin1").read()
+                    try:
+                        files["#bd"] = breakdown_inputs(c20, m, d)
+                    except Exception as ex:
+                        files["#bd"] = repr(ex)
                 shutil.rmtree(d, ignore_errors=True)
                 return rc, e[-600:], files
             for (m, k, parts), (rc, err, files) in zip(jobs, trace.pmap(run_job, jobs)):
@@ -550,6 +558,11 @@ def run(chk):
                     chk.notes.append("multi-loom breakdown trace rejected: %s" % err[-200:])
                     continue
                 nb += 1
+                bdin = files.pop("#bd", None)
+                if isinstance(bdin, tuple):
+                    bd_cmp.append((m, k, parts, files, bdin))
+                else:
+                    chk.count("breakdown-model:inputs-unreadable")
                 clocks = [e[0] for p_ in parts for evs in p_[1].values() for e in evs]
                 duration = max(clocks) - min(clocks)
                 bases = sorted(set(n.rsplit(".", 1)[0] for n in files))
@@ -558,9 +571,43 @@ def run(chk):
                 for b in bases:
                     for (kk, text) in check_set(files, b, None, duration, state, b == "thread"):
                         chk.violation("%s:%s:%d" % (kk, m.name, k), text, {"model": m.name, "looms": [{"ncpu": p_[0], "events": p_[2][:300]} for p_ in parts]})
+            # the breakdown files of the extracted Coq model (PvBreakdownDefs.bd_emulate: SortDefs' sort module feeding PvDefs'
+            # writer) against the real ones, byte for byte (.pcf, .row, .prv header; .prv records as a multiset)
+            if pv_oracle and bd_cmp:
+                outs = []
+                for part in trace.pmap(lambda ix: run_bd_oracle(pv_oracle, [b[4] for b in bd_cmp[ix:ix + 25]]), list(range(0, len(bd_cmp), 25))):
+                    outs += part
+                for (m, k, parts, files, bdin), (st_, mf) in zip(bd_cmp, outs):
+                    base = m.prvfile.rsplit(".", 1)[0]
+                    # the inputs are read per instant: where two events carry the same clock (two propagations in one instant:
+                    # ovniemu also writes the intermediate rows) the records of that instant are left out on both sides;
+                    # everything else (header, all other records, .pcf, .row) is compared
+                    clk = [e[0] for p_ in parts for evs in p_[1].values() for e in evs]
+                    shared_t = set(str(c - min(clk)).encode() for c in set(clk) if clk.count(c) > 1)
+                    shared = bool(shared_t) or bool(bdin[4])
+                    if st_ != "ok":
+                        bad = (base, mf)
+                    elif bdin[4]:
+                        bad = compare_pv(files, {base + "." + e_: mf[e_] for e_ in ("pcf", "row")}, names=(base + ".pcf", base + ".row"))
+                    else:
+                        drop = lambda text: b"\n".join(ln for n_, ln in enumerate(text.split(b"\n"))
+                                                       if n_ == 0 or not (ln.split(b":")[5:6] and ln.split(b":")[5] in shared_t))
+                        real2 = dict(files)
+                        real2[base + ".prv"] = drop(files[base + ".prv"].encode("latin1")).decode("latin1")
+                        bad = compare_pv(real2, {base + ".prv": drop(mf["prv"]), base + ".pcf": mf["pcf"], base + ".row": mf["row"]},
+                                         names=(base + ".pcf", base + ".row", base + ".prv"))
+                    cls = "several-events-in-one-instant" if shared else "one-event-per-instant"
+                    chk.count("breakdown-model:%s:%s" % (cls, "differs" if bad else "files-equal"))
+                    if bad:
+                        bd_bad.append(({"model": m.name, "case": k, "looms": [{"ncpu": p_[0], "events": p_[2][:120]} for p_ in parts]},
+                                       "breakdown files: " + bad[1]))
         finally:
             shutil.rmtree(wd, ignore_errors=True)
     chk.coverage["breakdown_traces_checked"] = nb
+    chk.coverage["breakdown_traces_compared_with_model"] = len(bd_cmp)
+    if bd_bad:
+        chk.coverage["breakdown_model_disagreements"] = [{"scenario": c[0], "what": c[1]} for c in bd_bad[:5]]
+        pvcorr += bd_bad
     chk.sample({"scenario": scs[0].describe(), "ovniemu_exit": real[0]["rc"]})
     chk.coverage["rule"] = ("every .prv/.pcf/.row of every accepted generated trace (random thread/affinity histories over 1-3 looms with table events of random "
                             "model subsets; nOS-V and Nanos6 task histories with ranks and app ids; breakdown traces with -b) parsed by a strict independent "
@@ -588,6 +635,91 @@ def run(chk):
     emucheck.finish_corr(chk, corr)
 
 
+def breakdown_inputs(c20, m, d):
+    """what PvBreakdownDefs.bd_emulate is given for one `ovniemu -b` run, read from the OTHER files of the same run:
+    number of physical CPUs (cpu.row), the task values of the model's task-type PCF type in cpu.pcf (file order), and per
+    instant the changes of the per-CPU breakdown values (the sort inputs; C20_wiring) derived from the subsystem / task type /
+    idle records of cpu.prv.  -> ("nosv"|"nanos6", n, tvals text, steps text, instants with more than one record on a
+    (row, type))"""
+    hdr, cp = trace.parse_prv(os.path.join(d, "cpu.prv"))
+    duration = int(hdr.split(":")[2].split("_")[0])
+    phys = c20.read_rows(os.path.join(d, "cpu.row"))
+    prow = [k + 1 for k, p in enumerate(phys) if p]
+    tvals = []
+    raw = open(os.path.join(d, "cpu.pcf"), "rb").read().split(b"\n")
+    # values of the task-type PCF type in file order, label bytes as they are in the file
+    i = 0
+    while i < len(raw):
+        if raw[i] == b"EVENT_TYPE" and i + 1 < len(raw) and raw[i + 1].split()[1:2] == [str(m.t_type).encode()]:
+            j = i + 3
+            while j < len(raw) and raw[j]:
+                v = raw[j].split(b" ", 1)[0]
+                tvals.append((int(v), raw[j][max(len(v), 4) + 1:]))      # "%-4d %s"
+                j += 1
+            break
+        i += 1
+    byt = {}
+    for (t, row, ty, v) in cp:
+        if ty in (m.t_type, m.t_ss, m.t_idle):
+            byt.setdefault(t, []).append((row, ty, v))
+    st = {(row, ty): 0 for row in prow for ty in (m.t_type, m.t_ss, m.t_idle)}
+    prev = [0] * len(prow)
+    steps = []
+    multi = 0
+    for t in sorted(byt):
+        seen = set()
+        for (row, ty, v) in byt[t]:
+            if (row, ty) in seen:
+                multi += 1
+            seen.add((row, ty))
+            if (row, ty) in st:
+                st[(row, ty)] = v
+        per = [c20.spec_bd_value(m.K, st[(row, m.t_type)], st[(row, m.t_ss)], st[(row, m.t_idle)]) if st[(row, m.t_idle)] != 0 else 0
+               for row in prow]
+        ch = [(i, per[i]) for i in range(len(prow)) if per[i] != prev[i]]
+        prev = per
+        if ch:
+            steps.append((t, ch))
+    if not steps or steps[-1][0] != duration:
+        steps.append((duration, []))
+    ttxt = ",".join("%d:%s" % (v, l.hex() or "-") for (v, l) in tvals) or "-"
+    stxt = "|".join("%d;%s" % (t, ",".join("%d=%d" % iv for iv in ch) or "-") for (t, ch) in steps)
+    return (m.name, len(prow), ttxt, stxt, multi)
+
+
+def run_bd_oracle(oracle, inputs):
+    """-> per input ('err', text) | ('ok', {"prv": bytes, "pcf": bytes, "row": bytes})"""
+    lines = ["BD %s %d %s %s" % (i[0], i[1], i[2], i[3]) for i in inputs]
+    rc, out, err = common.run([oracle], input="\n".join(lines) + "\n", timeout=900)
+    res = []
+    for ln in out.split("\n"):
+        f = ln.split()
+        if f[:2] == ["bd", "err"]:
+            res.append(("err", "model refuses with %s" % f[2]))
+        elif f[:2] == ["bd", "ok"]:
+            res.append(("ok", {k: (b"" if h == "-" else bytes.fromhex(h)) for k, h in zip(("prv", "pcf", "row"), f[2:5])}))
+    if len(res) != len(inputs):
+        raise RuntimeError("pv oracle answered %d of %d breakdown inputs: %s" % (len(res), len(inputs), err[-400:]))
+    return res
+
+
+def enum_value(path, want):
+    """value of an enumerator of a C header (decimal initialisers and implicit increments only)"""
+    text = re.sub(r"/\*.*?\*/", "", open(path).read(), flags=re.S)
+    for body in re.findall(r"enum\s+\w*\s*\{([^}]*)\}", text):
+        cur = -1
+        for ent in body.split(","):
+            mm = re.match(r"\s*(\w+)\s*(?:=\s*(-?\d+))?\s*$", ent)
+            if not mm:
+                continue
+            cur = int(mm.group(2)) if mm.group(2) is not None else cur + 1
+            if mm.group(1) == want:
+                return cur
+    raise KeyError(want)
+
+
 def c20_constants(tables, name):
+    """(ST_TASK_BODY, ST_UNKNOWN_SS, ST_PROGRESSING) of the model"""
     c = {(x["model"], x["name"]): x["value"] for x in tables["consts"]}
-    return (c[(name, "ST_TASK_BODY")], 0, c[(name, "ST_PROGRESSING")])
+    unk = enum_value(os.path.join(common.REPO, "src", "emu", name, name + "_priv.h"), "ST_UNKNOWN_SS")
+    return (c[(name, "ST_TASK_BODY")], unk, c[(name, "ST_PROGRESSING")])
